@@ -25,7 +25,7 @@ def wrapE (root : Cell) : Cell := Cell.ordinary [true] [root]
 
 /-- On a non-empty list of distinct `n`-bit keys in ascending bit order, `encodeMap` succeeds and writes the cell tree of
 a valid `Hashmap n X` (with the label forms tongo picks) whose meaning is exactly the list. Covers every shape: single
-key, keys differing only in the last bit, `n = 1`, labels on both sides of the 8-bit short/long threshold. -/
+key, keys differing only in the last bit, `n = 1`, every label length and all three label forms the encoder picks. -/
 theorem encode_sorted_tree (C : Codec V) (pay : V → List Bool × List Cell) (n : Nat) (kvs : List (Key × V))
     (hne : kvs ≠ []) (hw : ∀ kv ∈ kvs, kv.1.length = n) (hs : SortedKV kvs) (hfit : ∀ kv ∈ kvs, Fits C pay n kv.2) :
     ∃ t : HTree V, t.Valid n ∧ t.meaning = kvs ∧ encodeMap C (n + 1) kvs (n : Int) = .ok (t.toCell pay n) :=
@@ -35,6 +35,13 @@ theorem width_lt_of_fits (C : Codec V) (pay : V → List Bool × List Cell) (n :
     n < 2 ^ 64 := by
   have := h.2.1
   omega
+
+/-- The encoder writes every edge label in the shortest of the three TL-B forms (TON's canonical choice), so a
+dictionary read from the chain is written back with the same cells: no other serialisation of the same label is shorter.
+(That the tie-breaks are TON's too is checked on every run by `go.hm.reencode` on the real dictionaries.) -/
+theorem labels_shortest (label : Key) (m : Nat) (l' : Lbl) (h : l'.bits = label) :
+    (encLabelBits label (m : Int)).length ≤ (l'.enc m).length :=
+  encLabelBits_shortest label m l' h
 
 /-- decode ∘ encode = id on sorted input: `Hashmap.UnmarshalTLB` of what `encodeMap` wrote returns the same keys and
 values in the same (ascending key-bit) order. -/
